@@ -164,7 +164,34 @@ def strat_conflict(draw):
             'sel': sel, 'a': a, 'b': b}
 
 
+@st.composite
+def strat_restart(draw):
+    """a setting inserted below (topmost=False), conflicting settings applied on top across its start afterwards, then the
+    inserted setting (or another one) is removed: restarts that still decide precedence must survive the removal"""
+    names = ['red', 'blue', 'bold', 'faint', 'no_bold_faint', 'underline', 'no_underline', 'fg_default', 'green', 'italic']
+    n = draw(st.integers(3, 8))
+    t = draw(gen.texts(n, n, nonascii=False))
+    rs = [{'s': [{'k': 'name', 'v': draw(st.sampled_from(names))}], 'a': 0, 'b': None, 'top': True}]
+    ops = []
+    low = draw(st.sampled_from(['italic', 'crossed_out', 'bold', 'red']))
+    a = draw(st.integers(1, n - 1))
+    b = draw(st.one_of(st.none(), st.integers(a + 1, n)))
+    ops.append({'op': 'apply', 's': [{'k': 'name', 'v': low}], 'a': a, 'b': b, 'top': False})
+    for _ in range(draw(st.integers(1, 2))):
+        x = draw(st.integers(0, n - 1))
+        ops.append({'op': 'apply', 's': [{'k': 'name', 'v': draw(st.sampled_from(names))}], 'a': x,
+                    'b': draw(st.one_of(st.none(), st.integers(x + 1, n))), 'top': draw(st.sampled_from([True, True, False]))})
+    which = draw(st.integers(0, 3))
+    sel = [{'k': 'name', 'v': low}] if which < 2 else (None if which == 2 else {'pick': draw(st.integers(0, 20)), 'extra': False})
+    ra = draw(st.sampled_from([a, a, 0, max(0, a - 1)]))
+    rb = draw(st.sampled_from([b, b, None, min(n, a + 1)]))
+    return {'p': {'cls': draw(st.sampled_from(['S', 'S', 's'])), 'ctor': {'k': 'ranges', 't': t, 'r': rs}, 'ops': ops},
+            'sel': sel, 'a': ra, 'b': rb}
+
+
 SUBS = [
+    Sub('remove_after_restart', eval_remove, strategy=strat_restart, quick=400, thorough=6000,
+        rule='remove_formatting on values with restart pairs (below-insert followed by topmost applications across its start)'),
     Sub('remove', eval_remove, strategy=strat, quick=500, thorough=8000),
     Sub('remove_conflict', eval_remove, strategy=strat_conflict, quick=600, thorough=10000,
         rule='small values with staggered conflicting / equal settings; selection picked from the value; in-range bounds'),
